@@ -272,6 +272,18 @@ func (m *Model) reach(r *mRepo, loose bool) map[ociregistry.Digest]bool {
 
 // Predict gives the reference answer for a transition.
 func (m *Model) Predict(u *universe, op Op) Pred {
+	if op.Ctx == "done" {
+		// a call made with a cancelled context may fail where it would have succeeded (with whatever error);
+		// it may not succeed where the same call with a live context must fail
+		live := op
+		live.Ctx = ""
+		p := m.Predict(u, live)
+		if p.Ok == mustOK {
+			return Pred{Ok: either, Desc: p.Desc, Why: p.Why + " (context already cancelled: failing is allowed)"}
+		}
+		p.Codes = nil // whatever error
+		return p
+	}
 	validRepo := refRepo(op.Repo)
 	switch op.K {
 	case "PushBlob":
